@@ -1918,6 +1918,31 @@ def gen_c18(seed, index):
     prof = {"name": "C18", "lp": ALL_LP, "np": [None, None] + G.NP_KINDS, "p_binz": 0.5,
             "weights": {"fit": 1, "pfit": 3, "query": 3, "add": 1, "rem": 0.5, "warm": 0.7}, "n_ops": (3, 8),
             "dims": [1, 1, 2, 3], "unknown_labels": False}
+    if index % 8 == 3:
+        # stored histories: the first training call names only the shortest string labels (or only integral numeric
+        # labels), a later partial_fit brings a longer label (a non-integral one): whatever dtype the first call
+        # produced for the stored decisions must widen, in every container
+        rng, g = _gen(seed, index, dict(prof, name="C18h", np=["radius", "knn", "lsh", "clusters", "tree", None]))
+        if index % 16 == 3:
+            arms = ["a", "b", "ab", "abcdefgh"]
+        else:
+            arms = [1, 2, 2.5, 7.25]
+        g.arms = list(arms)
+        g.spare = []
+        g.cfg["arms"] = list(arms)
+        n = max(6, ((g.cfg.get("np") or {}).get("n", 0) or 0) + 4, (g.cfg.get("np") or {}).get("kk", 0) or 0)
+        ops = []
+        for k, pool in enumerate([arms[:2], arms[2:], arms]):
+            d, r, c = g.batch(n, allow_unknown=False)
+            d = [rng.choice(pool) for _ in d]
+            ops.append({"op": "fit" if k == 0 else "pfit", "d": d, "r": r, "c": c})
+            g.stored += list(c or [])
+            g.fitted = True
+            g.ops = []
+            g.op_query("pexp")
+            g.op_query("pred")
+            ops += g.ops
+        return {"cfg": g.cfg, "ops": ops, "variant": rng.choice(["pandas", "ndarray", "pandas"])}
     rng, g = _gen(seed, index, prof)
     scn = g.build()
     # later batches carry non-integral contexts (k/2) so that an integer first batch does not pin the dtype
